@@ -84,6 +84,8 @@ type sched struct {
 	hung       bool
 	afterDone  int
 	helperPanic string
+	taskEnded  func(t *task) // a library goroutine has ended (engine: merge its operation context)
+	lastAnnounced *task // canonical schedule: who announced a blocking operation last
 	newTaskOp  func(parent, child *task) // lets the engine give a library goroutine its parent's operation context
 }
 
@@ -209,7 +211,15 @@ func (s *sched) pick() *task {
 		return nil
 	}
 	if s.canonical {
-		return r[0]
+		// lowest id first - but not the task that has just announced a blocking operation when
+		// someone else can run: a loop that polls (select with default) would otherwise starve the
+		// goroutine it is waiting for
+		t := r[0]
+		if t == s.lastAnnounced && len(r) > 1 {
+			t = r[1]
+		}
+		s.lastAnnounced = nil
+		return t
 	}
 	e := s.nextTape()
 	t := r[int(e&0xff)%len(r)]
@@ -275,6 +285,9 @@ func (s *sched) spawnHelper(fn func()) bool {
 			}()
 			fn()
 		}()
+		if s.taskEnded != nil {
+			s.taskEnded(t)
+		}
 		s.markDone(t)
 		finish(s.rootCh, t.id)
 	}()
@@ -339,6 +352,9 @@ func (s *sched) wrapTimerFunc(fn func()) func() {
 		s.timerFired(t)
 		s.unblocked(t)
 		fn()
+		if s.taskEnded != nil {
+			s.taskEnded(t)
+		}
 		s.markDone(t)
 		finish(s.rootCh, t.id)
 	}
@@ -365,7 +381,7 @@ func (s *sched) noteBack() {
 }
 
 //go:norace
-func (s *sched) noteExt(t *task) { t.ext = true; s.extN++ }
+func (s *sched) noteExt(t *task) { t.ext = true; s.extN++; s.lastAnnounced = t }
 
 // idle: every live task is blocked outside the scheduler. The root blocks too, which lets the
 // bubble's clock run on to the next timer; false when nothing came back within two simulated days.
